@@ -347,9 +347,10 @@ impl<'a> TextExtractor<'a> {
                         let end = buf.get_cursor();
                         return Err(LocatedVal::new(err, start, end))
                     }
-                    for a in args.iter() {
+                    // the string is the last operand; those before it (for '"') are numbers.
+                    for (i, a) in args.iter().enumerate() {
                         match a.val() {
-                            CSObjT::String(v) => {
+                            CSObjT::String(v) if i + 1 == args.len() => {
                                 // We haven't type-checked the args,
                                 // so we are relying on the fact that
                                 // there is a single text argument to
@@ -359,7 +360,8 @@ impl<'a> TextExtractor<'a> {
                                 }
                                 texts.push(TextToken::RawText(v.clone()))
                             },
-                            CSObjT::Integer(_) | CSObjT::Real(_) if op_name.as_str() == "\"" => (),
+                            CSObjT::Integer(_) | CSObjT::Real(_)
+                                if op_name.as_str() == "\"" && i + 1 < args.len() => {},
                             _ => {
                                 let msg = format!(
                                     "content stream {:?}: unexpected arg type {:?} for {}",
